@@ -161,7 +161,20 @@ func c14Batch(seed int64, b int, out *childOut) {
 	loginAfterLine := -1
 	for k := 1; k <= n; k++ {
 		seq++
-		g := genGroup(r, vlib.BaseTSms+int64(k), seq, pid, ses, false)
+		// Kernel timestamps need not grow with delivery order (records of one
+		// session written by different CPUs, a stepped clock): adjacent groups
+		// swapped in most batches, the whole session backwards in every fifth.
+		off := 1 + ((k - 1) ^ 1)
+		switch b % 5 {
+		case 0:
+			off = n + 1 - k
+		case 1:
+			off = k
+		}
+		if off != k {
+			out.add("groups_with_timestamp_out_of_delivery_order", 1)
+		}
+		g := genGroup(r, vlib.BaseTSms+int64(off), seq, pid, ses, false)
 		groups[g.TSms] = g
 		all = append(all, g.Lines...)
 		if k == late {
@@ -335,10 +348,12 @@ func checkC14(r *vlib.Run) int {
 	r.Set("max_emissions_from_one_login", res.stats["max:emissions_from_one_login"])
 	r.Set("groups_sent", res.stats["groups_sent"])
 	r.Set("late_login_batches", res.stats["late_login_batches"])
+	r.Set("groups_with_timestamp_out_of_delivery_order", res.stats["groups_with_timestamp_out_of_delivery_order"])
 	r.Set("events_released_from_hold_queue", res.stats["events_released_from_hold_queue"])
 	r.Set("groups_not_emitted_c15s_subject", res.stats["groups_not_emitted"])
 	r.Require(res.stats["events_compared"] >= res.stats["groups_sent"]*95/100, "fewer than 95% of the generated groups were emitted and compared")
 	r.Require(len(toks) >= 7, "not every result token exercised")
+	r.Require(res.stats["groups_with_timestamp_out_of_delivery_order"] > res.stats["groups_sent"]/3, "too few groups with a timestamp out of delivery order")
 	r.Require(res.stats["events_released_from_hold_queue"] > 500, "too few events went through the hold-queue flush")
 	r.Require(res.stats["events_with_args"] > 100 && res.stats["events_without_args"] > 100, "argument presence not exercised both ways")
 	r.Assumptions = []string{"the expected summary is computed by go-libaudit's aucoalesce on fresh copies of the same lines (coalescing mutates the parsed message's cached map); the expected outcome comes from the generator's token and is cross-checked with go-libaudit",
